@@ -302,17 +302,19 @@ func runC11(c *core.Case) {
 		}
 		c.Tag("after-failed-call")
 	}
-	res, err := transform.ConvertExtendedSpatialIDsToQuadkeysAndVerticalIDs(in, H, V, 0, 0)
+	// index form is requested by maxHeight == minHeight, whatever the common value; the groups echo the request
+	fc := []float64{0, 0, 0, 100, -12.5, 1e9}[r.Intn(6)]
+	res, err := transform.ConvertExtendedSpatialIDsToQuadkeysAndVerticalIDs(in, H, V, fc, fc)
 	c.Call()
 	if err != nil {
-		c.Fail("quadkey-error", nil, "ConvertExtendedSpatialIDsToQuadkeysAndVerticalIDs(%v,%d,%d,0,0) returned %v", in, H, V, err)
+		c.Fail("quadkey-error", nil, "ConvertExtendedSpatialIDsToQuadkeysAndVerticalIDs(%v,%d,%d,%v,%v) returned %v", in, H, V, fc, fc, err)
 		return
 	}
 	var groups [][][2]int64
 	for gi, g := range res {
 		groups = append(groups, g.InnerIDList())
-		if g.QuadkeyZoom() != H || g.VerticalZoom() != V || g.MaxHeight() != 0 || g.MinHeight() != 0 {
-			c.Fail("quadkey-group-params", nil, "group %d reports (quadkeyZoom %d, vZoom %d, max %v, min %v), request was (%d,%d,0,0)", gi, g.QuadkeyZoom(), g.VerticalZoom(), g.MaxHeight(), g.MinHeight(), H, V)
+		if g.QuadkeyZoom() != H || g.VerticalZoom() != V || g.MaxHeight() != fc || g.MinHeight() != fc {
+			c.Fail("quadkey-group-params", nil, "group %d reports (quadkeyZoom %d, vZoom %d, max %v, min %v), request was (%d,%d,%v,%v)", gi, g.QuadkeyZoom(), g.VerticalZoom(), g.MaxHeight(), g.MinHeight(), H, V, fc, fc)
 			return
 		}
 		if len(g.InnerIDList()) == 0 {
